@@ -116,6 +116,114 @@ func dencoStructural(c *Ctx, r2, r3, r4, r5 string) {
 			}
 		}
 	}
+	// the records the caller hands to Build are the caller's: building never writes into them (the same list may be
+	// built from again, or be in use elsewhere) — every edit is made on a private copy
+	mrf := p.Fn("rt/middleware/denco.makeRecords")
+	for _, fn := range []*ssa.Function{rb, mrf} {
+		var src ssa.Value
+		for _, prm := range fn.Params {
+			if strings.HasSuffix(typeStr(prm.Type()), "[]rt/middleware/denco.Record") {
+				src = prm
+			}
+		}
+		if src == nil {
+			continue
+		}
+		for _, in := range instrs(fn) {
+			st, ok := in.(*ssa.Store)
+			if !ok {
+				continue
+			}
+			if _, isAl := st.Addr.(*ssa.Alloc); isAl {
+				continue
+			}
+			root, _, _, _ := chainRoot(st.Addr)
+			if root == st.Addr {
+				// a pointer held in a local (r := &srcs[i]; r.Key = …): where does it point
+				if fa, isFA := st.Addr.(*ssa.FieldAddr); isFA {
+					for _, o := range originsOf(fa.X) {
+						if ia, isIA := o.V.(*ssa.IndexAddr); isIA {
+							root, _, _, _ = chainRoot(ia)
+						}
+					}
+				}
+			}
+			if fa, isFA := root.(*ssa.FieldAddr); isFA {
+				for _, o := range originsOf(fa.X) {
+					if ia, isIA := o.V.(*ssa.IndexAddr); isIA {
+						root, _, _, _ = chainRoot(ia)
+					}
+				}
+			}
+			if fromSrc, _ := allOrigins(root, oIsValue(src)); fromSrc && root != nil {
+				c.obD(r2, st, "callers-records-not-written", false, "Build and makeRecords never store into the caller's []Record (keys are terminated on a copy): building twice from one list gives the same router", "a field of the caller's record is written")
+			}
+		}
+	}
+	// every parameterised key is terminated with '#' before the trie is built — unconditionally (not only when the size
+	// hint is computed, say)
+	{
+		// (the site is the concatenation `key + "#"` itself, whether it is stored back into the record's Key or handed to
+		// NewRecord / a composite literal)
+		isTerm := func(in ssa.Instruction) bool {
+			bo, isBo := in.(*ssa.BinOp)
+			if !isBo || bo.Op != token.ADD {
+				return false
+			}
+			k, isK := constString(bo.Y)
+			if !isK || k != "#" {
+				return false
+			}
+			okKey, _ := allOrigins(bo.X, oFieldLoad("rt/middleware/denco.Record", "Key", nil))
+			return okKey
+		}
+		var terms []ssa.Instruction
+		for _, fn := range []*ssa.Function{rb, mrf} {
+			for _, in := range instrs(fn) {
+				if isTerm(in) && (in.Parent() == rb || in.Parent() == mrf) {
+					terms = append(terms, in)
+				}
+			}
+		}
+		c.obRF(r2, mrf, "terminates-parameterised-keys", len(terms) == 1, "the key of a parameterised record gets the termination byte appended (once)", fmt.Sprintf("%d sites", len(terms)))
+		if len(terms) == 1 {
+			t := terms[0]
+			if t.Parent() == mrf {
+				// every record classified as parameterised passes through it on its way into the params list
+				for _, ci := range callsIn(mrf, "builtin append") {
+					call, ok := ci.(*ssa.Call)
+					if !ok || ci.Parent() != mrf {
+						continue
+					}
+					isParams := false
+					for _, r := range returnsOf(mrf) {
+						if len(r.Results) == 2 {
+							for _, o := range originsOf(r.Results[1]) {
+								if o.V == ssa.Value(call) {
+									isParams = true
+								}
+							}
+						}
+					}
+					if isParams {
+						c.obI(r2, call, "every-parameterised-key-terminated", !pathExists(mrf, nil, call, nil, isTerm), "a record enters the parameterised list only with its key terminated", "a record can be listed as parameterised with an unterminated key")
+					}
+				}
+			} else {
+				// done in Build: for every parameterised record, on every path to the construction of the trie
+				okT := false
+				bcalls := callsIn(rb, "(*rt/middleware/denco.doubleArray).build")
+				if len(mr) == 1 && len(bcalls) == 1 {
+					for _, l := range sliceLoops(rb, vOrigins(oIsValue(resultOf(mr[0].(*ssa.Call), 1)))) {
+						if l.everyIteration(isTerm) && l.Header.Dominates(bcalls[0].Block()) {
+							okT = true
+						}
+					}
+				}
+				c.obI(r2, t, "every-parameterised-key-terminated", okT, "Build terminates the key of EVERY parameterised record, unconditionally, before the trie is built", "the termination is skipped for some records or on some paths (it sits under a condition that has nothing to do with it)")
+			}
+		}
+	}
 	c.obF(r2, rb, "statics-registered", okStatic, "every parameter-free record is stored in the static map", "")
 	rl := p.Fn("(*rt/middleware/denco.Router).Lookup")
 	var staticLk *ssa.Lookup
@@ -270,6 +378,23 @@ func dencoStructural(c *Ctx, r2, r3, r4, r5 string) {
 		if !ok || calleeName(&call.Call) != "builtin append" || typeStr(call.Type()) != "[]uint64" {
 			continue
 		}
+		// the stack belongs to THIS invocation: it starts from memory the invocation made itself (a nested lookup that
+		// worked on its caller's stack would overwrite the caller's pending candidates)
+		own := func(f *ssa.Function) bool { return f == lk || isTransparent(f) } // (or a helper the walk was moved into)
+		okOwn, badOwn := allOrigins(call.Call.Args[0], func(o Origin) bool {
+			switch x := o.V.(type) {
+			case *ssa.MakeSlice:
+				return own(x.Parent())
+			case *ssa.Alloc:
+				return own(x.Parent())
+			case *ssa.Call:
+				return calleeName(&x.Call) == "builtin append" && own(x.Parent())
+			case *ssa.Const:
+				return x.Value == nil // var indices []uint64
+			}
+			return false
+		})
+		c.obD(r5, call, "candidate-stack-private-to-invocation", okOwn, "the backtracking stack a lookup appends to is made by that very invocation (every nesting level keeps its own pending candidates)", "the stack originates from "+describeOrigin(badOwn))
 		_, trunc := call.Call.Args[0].(*ssa.Slice)
 		c.obI(r5, call, "candidates-accumulate", !trunc, "the candidate stack is appended to, never re-sliced, during the literal walk (every parameter-capable node on the way stays a backtracking candidate)", "append onto a re-sliced stack drops earlier candidates")
 	}
